@@ -13,7 +13,8 @@ warnings.filterwarnings("ignore")
 
 THEOREMS = ["Yaw.C18.requests_cover_once", "Yaw.C18.requests_bounded", "Yaw.C18.requests_consecutive",
             "Yaw.C18.probe_and_passes_pinned", "Yaw.C18.file_slices_eq_df", "Yaw.C18.Pq.next_flatten", "Yaw.C18.Pq.run_flatten", "Yaw.C18.Pq.next_length",
-            "Yaw.C18.Pq.next_lazy", "Yaw.C18.Pq.parquet_pinned"]
+            "Yaw.C18.Pq.next_lazy", "Yaw.C18.Pq.parquet_pinned", "Yaw.C18Probe.split_sorted", "Yaw.C18Probe.probe_spec",
+            "Yaw.C18Probe.probe_rows", "Yaw.C18Probe.probe_chunking_free", "Yaw.C18Probe.probe_flags"]
 RULE = ("instrumented data-frame-like source (logs every slice and every whole-column access) fed to "
         "Catalog.from_dataframe (fresh path and overwrite of an existing cache) for lengths n in {k*c-1, k*c, k*c+1, < c, 1} x chunk sizes 1..n+2 x patch modes "
         "(centres, index column, generated centres = 2 passes); the slice log is compared EXACTLY with the Lean "
@@ -47,7 +48,7 @@ def run(prop, tier, seed, replay):
     from yaw import AngularCoordinates, Catalog
     from yaw.catalog.readers import new_filereader
 
-    ck = Check(prop, tier, seed, kernels=["k_reader", "k_createplan"], theorems=THEOREMS + ["Yaw.C18P.steps_spec", "Yaw.C18P.passes_spec", "Yaw.C18P.reader_forwarding", "Yaw.C18P.mode_args", "Yaw.C18P.writer_forwarding", "Yaw.C18P.glue_pinned"], lean_modules=["YawVerif.Props.C18", "YawVerif.Props.C18Plan"], rule=RULE,
+    ck = Check(prop, tier, seed, kernels=["k_reader", "k_createplan", "k_probe"], theorems=THEOREMS + ["Yaw.C18P.steps_spec", "Yaw.C18P.passes_spec", "Yaw.C18P.reader_forwarding", "Yaw.C18P.mode_args", "Yaw.C18P.writer_forwarding", "Yaw.C18P.glue_pinned"], lean_modules=["YawVerif.Props.C18", "YawVerif.Props.C18Plan", "YawVerif.Props.C18Probe"], rule=RULE,
                assumptions=["pandas slicing returns the requested rows; memory-mapped file access below the reader is not observed"])
     ck.translate()
     ck.lean_check()
@@ -206,6 +207,12 @@ def run(prop, tier, seed, replay):
                             probe = reader.get_probe(psize)
                             want_idx = np.linspace(0, n - 1, psize).astype(int)
                             ck.count(f"probe:{'sparser' if psize < nchunks else 'denser'}-than-chunks")
+                            got_pos = [int(np.flatnonzero(np.deg2rad(ra) == v)[0]) if (np.deg2rad(ra) == v).any() else -1
+                                       for v in np.asarray(probe["ra"])]
+                            clens = [min(c, n - a) for a in range(0, n, c)]
+                            reqs.append(f"pr{fi}.{psize} probe {len(clens)} {' '.join(map(str, clens))} {psize} "
+                                        + " ".join(map(str, want_idx.tolist())))
+                            expect.append((got_pos, "probe", {"format": fmt, "n": n, "chunksize": c, "probe_size": psize}))
                             if not np.array_equal(np.asarray(probe["ra"]), np.deg2rad(ra)[want_idx]):
                                 pos = [int(np.flatnonzero(np.deg2rad(ra) == v)[0]) if (np.deg2rad(ra) == v).any() else None
                                        for v in np.asarray(probe["ra"])]
@@ -275,6 +282,11 @@ def run(prop, tier, seed, replay):
         model = None
         if ans is not None and passes != "parquet-cache":
             model = [tuple(int(x) for x in t.split(":")) for t in ans[idx].split()]
+        if passes == "probe":
+            if ans is not None and [int(x) for x in ans[idx].split()] != obs:
+                ck.add_tie_break("rows of the probe vs the Lean selection loop on the reader's chunks",
+                                 {"case": rep, "impl": obs, "model": ans[idx]})
+            continue
         if passes == "parquet-cache":
             if ans is not None:
                 model_pq = [(int(t.split(":")[0]), int(t.split(":")[2])) for t in ans[idx].split()]
